@@ -26,6 +26,8 @@ pub struct CDoc {
     pub t: Option<String>,
     pub a: Option<u64>,
     pub b: Option<u64>,
+    /// an ARRAY-valued indexed field: one posting per element (array key expansion, batch updates)
+    pub g: Option<Vec<u64>>,
     pub v: Vector,
 }
 
@@ -39,6 +41,17 @@ pub const VALS: &[(Option<u64>, Option<&str>, Option<u64>)] = &[
     (Some(3), Some("dog fox"), Some(7)),
     (Some(2), Some("cat"), None),
 ];
+/// The array field g of value n: overlapping, shrinking, empty and absent arrays.
+pub const GVALS: &[Option<&[u64]>] = &[Some(&[1, 2]), Some(&[2]), Some(&[]), Some(&[2, 3]), Some(&[1]), None];
+fn g_of(val: usize) -> Option<Vec<u64>> {
+    GVALS[val - 1].map(|a| a.to_vec())
+}
+fn g_fv(val: usize) -> Fv {
+    match g_of(val) {
+        Some(a) => Fv::Array(a.into_iter().map(Fv::U64).collect()),
+        None => Fv::Null,
+    }
+}
 pub const TOKENS: &[&str] = &["cat", "dog", "fox"];
 
 pub fn n_vals() -> usize {
@@ -65,6 +78,7 @@ pub fn mk_doc(val: usize) -> CDoc {
         t: t.map(|s| s.to_string()),
         a,
         b: Some(val as u64),
+        g: g_of(val),
         v: vec![bf16::from_f32(val as f32), bf16::from_f32(1.0)],
     }
 }
@@ -79,6 +93,7 @@ pub fn update_fields(val: usize) -> BTreeMap<String, Fv> {
         ),
         ("a".to_string(), a.map(Fv::U64).unwrap_or(Fv::Null)),
         ("b".to_string(), Fv::U64(val as u64)),
+        ("g".to_string(), g_fv(val)),
         (
             "v".to_string(),
             Fv::Vector(vec![bf16::from_f32(val as f32), bf16::from_f32(1.0)]),
@@ -115,6 +130,7 @@ pub fn val_of(doc: &CDoc) -> usize {
             && doc.t.as_deref() == *t
             && doc.a == *a
             && doc.b == Some((i + 1) as u64)
+            && doc.g == g_of(i + 1)
             && doc.v == vec![bf16::from_f32((i + 1) as f32), bf16::from_f32(1.0)]
         {
             return i + 1;
@@ -125,7 +141,7 @@ pub fn val_of(doc: &CDoc) -> usize {
 
 pub fn index_kinds() -> Value {
     // "c": the multi-field (virtual) B-tree index over (a, b) - always unique in the code
-    json!({"k": "btu", "t": "bm", "v": "hn", "a": "bt", "b": "bt", "c": "btu"})
+    json!({"k": "btu", "t": "bm", "v": "hn", "a": "bt", "b": "bt", "c": "btu", "g": "bt"})
 }
 
 /// Terms[index][val-1] as JSON
@@ -136,16 +152,18 @@ pub fn index_terms() -> Value {
     let mut b = Vec::new();
     let mut v = Vec::new();
     let mut c = Vec::new();
+    let mut g = Vec::new();
     for (i, (kk, tt, aa)) in VALS.iter().enumerate() {
         // every (a, b) pair of the table is distinct (b is the value number): the composite key of value n is n
         c.push(json!(vec![(i + 1) as u64]));
+        g.push(json!(g_of(i + 1).unwrap_or_default()));
         k.push(json!(kk.map(|x| vec![x]).unwrap_or_default()));
         t.push(json!(tokens_of(*tt)));
         a.push(json!(aa.map(|x| vec![x]).unwrap_or_default()));
         b.push(json!(vec![(i + 1) as u64]));
         v.push(json!(Vec::<u64>::new()));
     }
-    json!({"k": k, "t": t, "a": a, "b": b, "v": v, "c": c})
+    json!({"k": k, "t": t, "a": a, "b": b, "v": v, "c": c, "g": g})
 }
 
 pub fn db_config() -> DBConfig {
@@ -169,6 +187,7 @@ pub async fn create_index(c: &mut Collection, name: &str) -> Result<(), DBError>
         "a" => c.create_btree_index_nx(&["a"]).await,
         "b" => c.create_btree_index_nx(&["b"]).await,
         "c" => c.create_btree_index_nx(&["a", "b"]).await,
+        "g" => c.create_btree_index_nx(&["g"]).await,
         "t" => c.create_bm25_index_nx(&["t"]).await,
         "v" => {
             c.create_hnsw_index_nx(
@@ -186,7 +205,7 @@ pub async fn create_index(c: &mut Collection, name: &str) -> Result<(), DBError>
 
 pub async fn remove_index(c: &mut Collection, name: &str) -> Result<bool, DBError> {
     match name {
-        "k" | "a" | "b" => c.remove_btree_index(&[name]).await,
+        "k" | "a" | "b" | "g" => c.remove_btree_index(&[name]).await,
         "c" => c.remove_btree_index(&["a", "b"]).await,
         "t" => c.remove_bm25_index(&["t"]).await,
         "v" => c.remove_hnsw_index("v").await,
@@ -364,7 +383,7 @@ async fn observe_with(col: &Collection, max_id: u64) -> Value {
         }
     }
     let mut idx = serde_json::Map::new();
-    for name in ["k", "a", "b"] {
+    for name in ["k", "a", "b", "g"] {
         if col.get_btree_index(&[name]).is_ok() {
             let mut pairs = Vec::new();
             for key in 0..=9u64 {
